@@ -535,7 +535,7 @@ fn run_case(c: &Case) -> Outcome {
             req: format!("{} {} {} {}", strs(&c.keys), strs(&dec.hdr_labels), pre.text, lines),
             real,
             ok,
-            post: post.text,
+            post: post.text.clone(),
             err,
             skipped: None,
             feat,
@@ -613,22 +613,47 @@ fn main() {
 
     if args.replay.is_none() {
         let mut rng = Rng::new(args.seed);
-        let n_base = if args.thorough() { 150 } else { 70 };
+        let n_base = if args.thorough() { 150 } else { 84 };
         for i in 0..n_base {
             let mut r = rng.fork();
-            // two families: dedup-oriented (small name pool so that merges happen), and general programs
-            let (pre, snap) = if i % 4 != 3 {
-                let (a, b, ea, eb) = (1 + r.usize(4), 1 + r.usize(5), r.usize(3), 1 + r.usize(5));
-                (gen_dedup_program(&mut r, a, ea), gen_dedup_program(&mut r, b, eb))
-            } else {
-                let (a, b) = (2 + r.usize(8), 3 + r.usize(10));
-                (gen_program(&mut r, a, false), gen_program(&mut r, b, false))
+            // three families:
+            //  hole    — pre-store with a create/delete/re-create history (freed and re-used ids),
+            //            snapshot records interleaving merging / new / duplicate nodes in random order
+            //  dedup   — small name pool so that merges happen by chance, no deletions
+            //  general — arbitrary programs, deletions in the pre-store
+            let family = match i % 6 {
+                0 | 1 | 3 | 4 => "hole",
+                2 => "dedup",
+                _ => "general",
             };
-            let keys: Vec<String> = match r.usize(5) {
-                0 => vec![],
-                1 => vec!["name".into(), "code".into()],
-                2 => vec!["code".into()],
-                _ => vec!["name".into()],
+            let (pre, snap) = match family {
+                "hole" => {
+                    let (pre, live) = gen_hole_pre(&mut r);
+                    let snap = gen_interleaved_snap(&mut r, &live);
+                    (pre, snap)
+                }
+                "dedup" => {
+                    let (a, b, ea, eb) = (1 + r.usize(4), 1 + r.usize(5), r.usize(3), 1 + r.usize(5));
+                    (gen_dedup_program(&mut r, a, ea), gen_dedup_program(&mut r, b, eb))
+                }
+                _ => {
+                    let (a, b) = (2 + r.usize(8), 3 + r.usize(10));
+                    (gen_program(&mut r, a, true), gen_program(&mut r, b, false))
+                }
+            };
+            let keys: Vec<String> = if family == "hole" {
+                match r.usize(8) {
+                    0 => vec![],
+                    1 => vec!["name".into(), "code".into()],
+                    _ => vec!["name".into()],
+                }
+            } else {
+                match r.usize(5) {
+                    0 => vec![],
+                    1 => vec!["name".into(), "code".into()],
+                    2 => vec!["code".into()],
+                    _ => vec!["name".into()],
+                }
             };
             // mutations: sizes come from the real export of this snapshot
             let b = build(&snap);
@@ -639,6 +664,10 @@ fn main() {
             let text_len = gunzip(&bytes).map(|t| t.len()).unwrap_or(0);
             let n_lines = gunzip(&bytes).map(|t| t.lines().count()).unwrap_or(1);
             let mut muts = vec![Mutation::None, Mutation::Dangling];
+            // a failure planted at every record boundary
+            for k in 0..n_lines.saturating_sub(1) {
+                muts.push(Mutation::CutAfterLine(k));
+            }
             if args.thorough() {
                 for k in 0..bytes.len() {
                     muts.push(Mutation::TruncGz(k));
@@ -647,23 +676,23 @@ fn main() {
                     muts.push(Mutation::TruncText(k));
                 }
             } else {
-                let step = (bytes.len() / 16).max(1);
+                let step = (bytes.len() / 8).max(1);
                 for k in (0..bytes.len()).step_by(step) {
                     muts.push(Mutation::TruncGz(k));
                 }
-                for k in bytes.len().saturating_sub(12)..bytes.len() {
+                for k in bytes.len().saturating_sub(6)..bytes.len() {
                     muts.push(Mutation::TruncGz(k));
                 }
-                for _ in 0..6 {
+                for _ in 0..4 {
                     muts.push(Mutation::TruncText(r.usize(text_len.max(1))));
                 }
             }
-            let n_flip = if args.thorough() { 24 } else { 5 };
+            let n_flip = if args.thorough() { 24 } else { 2 };
             for _ in 0..n_flip {
                 muts.push(Mutation::FlipGz(r.usize(bytes.len().max(1)), 1 << r.usize(8)));
                 muts.push(Mutation::FlipText(r.usize(text_len.max(1)), 1 << r.usize(7)));
             }
-            for k in 0..n_lines.saturating_sub(1).min(if args.thorough() { 12 } else { 3 }) {
+            for k in 0..n_lines.saturating_sub(1).min(if args.thorough() { 12 } else { 2 }) {
                 muts.push(Mutation::DropLine(k));
             }
             for m in muts {
@@ -718,6 +747,15 @@ fn main() {
         rep.count(if o.ok { "result:ok" } else { "result:err" });
         if !o.ok && merged > 0 {
             rep.count("failed-after-merge");
+            if o.reuses_low_id {
+                rep.count("failed-after-merge:store-reuses-freed-low-id");
+            }
+        }
+        if o.reuses_low_id {
+            rep.count("pre-store:next-id-is-a-freed-low-id");
+        }
+        if cases[k].pre.iter().any(|op| matches!(op, Op::DelNode(_))) {
+            rep.count("pre-store:has-deletions");
         }
         if o.ok && merged > 0 {
             rep.count("ok-with-merge");
@@ -740,6 +778,20 @@ fn main() {
             rep.sample(json!({"case": o.case_txt, "impl": o.real, "error": o.err}));
         }
         let body = format!("{}\nrequest {}\nimpl  {}\nmodel {}\nspec  {}\nerror {:?}", o.case_txt, o.req, o.real, m, s, o.err);
+        // verbatim checks the model has no place for: row/column placement, incoming adjacency
+        // and the store's counters must be exactly as before after an Err; and the store must be
+        // self-consistent (incoming == outgoing, counters == enumerated) after any import
+        if s == "ok" && (o.raw_changed || o.inconsistent) {
+            let sig = if o.raw_changed { "failed-import:raw-dump-changed" } else { "import:adjacency-or-counters-inconsistent" };
+            rep.count(&format!("spec_violation:{}", sig));
+            rep.spec_violation(
+                &known,
+                sig,
+                &format!("{} on `{}`", if o.raw_changed { "a failed import changed the verbatim dump (row/column placement, incoming adjacency or counters)" } else { "incoming and outgoing adjacency, or node_count()/edge_count(), disagree after the import" }, o.case_txt),
+                &body,
+            );
+            continue;
+        }
         if s != "ok" {
             let sig = if !o.ok {
                 if o.diff.is_empty() { "failed-import:label-index".to_string() } else { format!("failed-import:{}", o.diff) }
